@@ -273,6 +273,7 @@ class Execer:
                     err_line=last_error_line,
                     err_col=last_error_col,
                     nlines=len(input.splitlines()),
+                    length=len(input),
                 )
                 if max_retries <= 0:
                     # Prevent hanging e.g. #5839
